@@ -693,6 +693,22 @@ class Body:
                         changed = True
         return al
 
+    def origin_at(self, x, bb, **kw):
+        """Provenance where a multiply-defined local resolves to its closest definition that dominates
+        block `bb` (the value flowing into bb on every path), when there is one."""
+        def choose(defs):
+            cands = [d for d in defs if (d[0] != bb and self.dominates(d[0], bb)) or (d[0] == bb and d[1] != "term")]
+            if not cands:
+                return None
+            best = cands[0]
+            for d in cands[1:]:
+                if self.dominates(best[0], d[0]) and best[0] != d[0]:
+                    best = d
+                elif best[0] == d[0] and str(d[1]) > str(best[1]):
+                    best = d
+            return best
+        return self.origin(x, _chooser=choose, **kw)
+
     def _op_ty(self, op):
         pl = op.get("c") or op.get("m")
         if pl is not None and "p" not in pl:
